@@ -441,7 +441,9 @@ func init() {
 		Run:           c14Run,
 		MinConclusive: func(tier string) int { return 600 },
 		Chunk:         func(tier string) int { return 12 },
-		Exhaustive:    func(tier string) string { return "54-cell command-line configuration matrix (every cell visited >= 6 times); error-path list" },
-		Assumptions:   []string{"programs are passed after `--` (a program starting with '-' is otherwise taken as a flag)", "the library run on the same tree is the reference for R1; R2-R5 compare the binary with itself"},
+		Exhaustive: func(tier string) string {
+			return "54-cell command-line configuration matrix (every cell visited >= 6 times); error-path list"
+		},
+		Assumptions: []string{"programs are passed after `--` (a program starting with '-' is otherwise taken as a flag)", "the library run on the same tree is the reference for R1; R2-R5 compare the binary with itself"},
 	})
 }
